@@ -226,3 +226,38 @@ Example C13_calc_fault_nonvacuous :
   fst (step c13_w (OFromDict 0 3 [DI (c13_dd 7) None [DI (c13_dd 8) None []]])) = Ok [] /\
   fst (step c13_w (OTreeCopy 0)) = Ok [3].
 Proof. vm_compute. repeat split. Qed.
+
+(* ====================================================================================== *)
+(* Refusal at the level of the raw pointers (theories/Mut/Heap.v, HeapRefusal.v).
+   [SameTree h h']: registry, clone index, EVERY _children list (also of objects that are no
+   nodes), and _parent / _tree / payload of the root and of every node of the tree are the same in
+   h and h'.  The only objects that may differ are not nodes of any tree: the refused object itself
+   (it keeps the _parent - and after a refused registration the _tree - it was constructed with)
+   and the objects a refused from_dict had built and removed again. *)
+From NT Require Import Heap HeapProofs HeapRefine HeapFull HeapRefusal.
+
+Theorem C13_heap_refusal : forall hw w o e, WFw w -> RepW hw w ->
+  fst (h_step hw o) = Err e -> library_error e = true ->
+  Forall2 SameTree (htrees hw) (htrees (snd (h_step hw o))) /\ hnext hw <= hnext (snd (h_step hw o)) /\
+  abs_world (snd (h_step hw o)) = option_map (fun w0 => W (trees w0) (hnext (snd (h_step hw o)))) (abs_world hw).
+Proof. exact heap_refusal. Qed.
+Print Assumptions C13_heap_refusal.
+
+(* no hypothesis left: the heap any history of heap operations produces *)
+Theorem C13_heap_refusal_reachable : forall ops o e,
+  fst (h_step (h_run ops h_empty_world) o) = Err e -> library_error e = true ->
+  Forall2 SameTree (htrees (h_run ops h_empty_world)) (htrees (h_run (ops ++ [o]) h_empty_world)).
+Proof. exact heap_refusal_reachable. Qed.
+Print Assumptions C13_heap_refusal_reachable.
+
+(* non-vacuity: the refused add_child leaves a dangling object 6 that points at its parent and at the tree,
+   and no pointer of the tree has changed *)
+Example C13_heap_refusal_nonvacuous :
+  let ops := [ONewTree false None; OAdd 0 0 (c13_dd 1) None None BNone; OAdd 0 1 (c13_dd 2) None None BNone] in
+  let o := OAdd 0 1 (c13_dd 2) None None BNone in
+  fst (h_step (h_run ops h_empty_world) o) = Err EUnique /\
+  match htrees (h_run ops h_empty_world), htrees (h_run (ops ++ [o]) h_empty_world) with
+  | [h], [h'] => hch h' 0 = hch h 0 /\ hch h' 1 = [2] /\ hreg h' = [1; 2] /\ hpar h 3 = None /\ hpar h' 3 = Some 1 /\ htr h' 3 = true /\ hch h' 3 = []
+  | _, _ => False
+  end.
+Proof. vm_compute. repeat split. Qed.
